@@ -18,6 +18,11 @@ Verdict(c) ==
     [] c.fn = "fuse_slice"      -> FuseVerdict(c)
     [] c.fn = "fuse_slice_raw"  -> FuseVerdict(c)
     [] c.fn = "compose_slices"  -> ComposeVerdict(c)
+    [] c.fn = "plan_rechunk"    -> RechunkPlanVerdict(c)
+    [] c.fn = "merge_to_number" -> MergeVerdict(c)
+    [] c.fn = "normalize_chunks" -> NormChunksVerdict(c)
+    [] c.fn = "unify_chunks"    -> UnifyVerdict(c)
+    [] c.fn = "moved_fraction"  -> MovedVerdict(c)
     [] OTHER -> "unknown-fn"
 
 \* always TRUE; rejected cases are reported with the failing clause
